@@ -829,6 +829,12 @@ let () =
     gen_pub;
   register "c17.indexed" ~doc:"DebugStrOffsets::get_str_offset / DebugAddr::get_address = the i-th word after the base (oracle), incl. overflowing indices"
     gen_indexed;
+  register "c17.strbase" ~doc:"implicit DW_AT_str_offsets_base: versions 2-5 x both formats x both byte orders x {main, dwo} x index 0..5 (exhaustive: true): Unit::new picks the header size of .debug_str_offsets in a v5 .dwo and 0 otherwise, and the indexed name resolves to the entry an exhaustive scan finds"
+    (fun ~seed:_ ~n:_ emit ->
+      List.iter (fun ver -> List.iter (fun fmt -> List.iter (fun be -> List.iter (fun dwo ->
+        for idx = 0 to 5 do
+          emit_fixed emit (Printf.sprintf "c17.strbase %d %d %d %d %d" ver fmt be dwo idx) "ok"
+        done) [0; 1]) [0; 1]) [4; 8]) [2; 3; 4; 5]);
   register "c17.wiring" ~doc:"loader wiring: marker-returning loader, every field of DwarfSections/Dwarf/sup/make_dwo/DwarfPackage(Sections)/package units checked (exhaustive: true)"
     gen_wiring;
   register "c17.corpus" ~doc:"compiler corpus: aranges/pubnames/pubtypes/debug_names/dwp index lookups vs exhaustive scans; package unit = standalone .dwo unit"
